@@ -26,6 +26,15 @@ CHECKS = {
             'The generator keeps values inside the schema value space using required-ness and simple-type facets read from '
             'the XSD files; tab/newline characters and classes listed in c05.EXCLUDED are not generated.',
             'DESIGN.md section 2 C05'),
+    'C12': ('hypothesis generated traces (construct / parse with defaulted parts absent / deepcopy / nested writes / '
+            'list appends) per class with an identity-walk and canonical-value oracle',
+            'For every concrete class, generated operation traces are executed and after every step the value of a '
+            'fresh cls() is compared with its value at the start, all mutable objects reachable from independently '
+            'obtained instances and from class-level defaults are checked for identity sharing, and every write is '
+            'checked not to change any other instance.',
+            'Class-level default objects are restored from pristine copies before each case; mk_copy() relatives are '
+            'not treated as independent (C03 covers copy isolation).',
+            'DESIGN.md section 2 C12'),
 }
 
 NOT_YET = {}
